@@ -17,7 +17,7 @@ pub fn tables() -> Vec<(&'static str, String)> {
 }
 
 fn short(e: &str) -> String {
-    e.replace(' ', "_").chars().take(120).collect()
+    e.split_whitespace().collect::<Vec<_>>().join("_").chars().take(160).collect()
 }
 
 pub fn exec(a: &[&str]) -> String {
